@@ -243,6 +243,9 @@ async def dropwhile(
             if not await predicate(item):
                 yield item
                 break
+        else:
+            # the iterable is exhausted, do not poll it again
+            return
         async for item in async_iter:
             yield item
 
@@ -284,6 +287,9 @@ async def islice(iterable: AnyIterable[T], *args: Optional[int]) -> AsyncIterato
             async for _count, element in aenumerate(_borrow(async_iter), start=1):
                 if _count == start:
                     break
+            else:
+                # the iterable is exhausted, do not poll it again
+                return
         if stop is None:
             async for idx, element in aenumerate(async_iter, start=0):
                 if not idx % step:
@@ -495,8 +501,11 @@ async def pairwise(iterable: AnyIterable[T]) -> AsyncIterator[Tuple[T, T]]:
     ``pairwise`` will wait for and consume it before finishing.
     """
     async with ScopedIter(iterable) as async_iter:
-        # any default is fine – we never yield it if there are not at least two items
-        prev = await anext(async_iter, None)
+        try:
+            prev = await anext(async_iter)
+        except StopAsyncIteration:
+            # the iterable is exhausted, do not poll it again
+            return
         async for current in async_iter:
             yield prev, current  # type: ignore
             prev = current
